@@ -433,7 +433,9 @@ impl TcpStream {
         .await
     }
 
-    fn read_some(&self, dst: &mut dyn FnMut(&[u8]), max: usize) -> io::Result<usize> {
+    /// `dut`: the read is the daemon's (through `try_read_buf`); the scripted actors poll their sockets
+    /// as often as they like and are not suspected of spinning.
+    fn read_some(&self, dst: &mut dyn FnMut(&[u8]), max: usize, dut: bool) -> io::Result<usize> {
         let mut c = self.conn.lock().unwrap();
         let now = Instant::now();
         let id = c.id;
@@ -443,8 +445,10 @@ impl TcpStream {
         if c.halves[rxi].buf.is_empty() {
             if rst || c.halves[rxi].fin_seen {
                 let fin = !rst;
-                c.dead_reads[self.side] += 1;
-                if c.dead_reads[self.side] == DEAD_READ_LIMIT {
+                if dut {
+                    c.dead_reads[self.side] += 1;
+                }
+                if dut && c.dead_reads[self.side] == DEAD_READ_LIMIT {
                     c.parked[self.side] = true;
                     let what = format!("connection {} side {}: {} reads in a row of a socket that is {}", id, self.side, DEAD_READ_LIMIT, if fin { "at end-of-file" } else { "reset" });
                     NET.with(|n| {
@@ -486,7 +490,7 @@ impl TcpStream {
 
     pub(crate) fn try_read_buf<B: bytes::BufMut>(&self, buf: &mut B) -> io::Result<usize> {
         let max = buf.remaining_mut();
-        self.read_some(&mut |s| buf.put_slice(s), max)
+        self.read_some(&mut |s| buf.put_slice(s), max, true)
     }
 
     fn write_some(&self, data: &[u8], cx: Option<&mut Context<'_>>, bypass: bool) -> Poll<io::Result<usize>> {
@@ -626,7 +630,7 @@ impl AsyncRead for TcpStream {
         if max == 0 {
             return Poll::Ready(Ok(()));
         }
-        match self.read_some(&mut |s| buf.put_slice(s), max) {
+        match self.read_some(&mut |s| buf.put_slice(s), max, true) {
             Ok(_) => Poll::Ready(Ok(())),
             Err(e) if e.kind() == io::ErrorKind::WouldBlock => {
                 let mut c = self.conn.lock().unwrap();
@@ -748,7 +752,7 @@ impl TcpStream {
     pub(crate) fn read_available(&self) -> Vec<u8> {
         let mut out = Vec::new();
         loop {
-            match self.read_some(&mut |s| out.extend_from_slice(s), usize::MAX) {
+            match self.read_some(&mut |s| out.extend_from_slice(s), usize::MAX, false) {
                 Ok(0) | Err(_) => break,
                 Ok(_) => {}
             }
